@@ -12,11 +12,12 @@ TRUSTED = ['Tier H model coq/Model/{Axis,Filter}.v tied to /repo by the `filter`
 ASSUMPTIONS = ['commands are issued after homing (G28 first), as the property states']
 
 CODES = ['G0', 'G1', 'G2', 'G3', 'G10', 'G11', 'G20', 'G21', 'G28', 'G90', 'G91', 'G92', 'M206', 'M204', 'M117', 'G4', 'M73', 'T0', 'M999', 'G5', 'G29', 'g1', 'G01', 'G1.5', 'M80.1']
-NUMS = ['0', '-0', '1', '-1', '+5', '.5', '-.25', '5.', '007', '15', '15.5', '100000', '1234567.891', '0.00001', '-0.000001', '99999999', '1e5', '12.5.3', '']
+NUMS = ['0', '-0', '1', '-1', '+5', '.5', '-.25', '5.', '007', '15', '15.5', '100000', '1234567.891', '0.00001', '-0.000001', '99999999', '1e5', '12.5.3', '',
+        '1' + '0' * 25, '123456789' * 4]
 LETTERS = list('XYZEFIJRSPT') + list('xyzeijr') + ['A', 'Q']
 
 
-BIG = ('100000', '1234567.891', '99999999', '1e5')
+BIG = ('100000', '1234567.891', '99999999', '1e5', '1' + '0' * 25, '123456789' * 4)
 
 
 def rnd_cmd(rng, big=True):
@@ -65,7 +66,7 @@ D17 = "import sys; sys.path.insert(0,'/verif/harness'); import impl; h=impl.new_
 
 
 def oracle(ctx, budget=1, replay=None, hints=None):
-    extra = [malformed_program(ctx.rng) for _ in range(300 * budget)]
+    extra = designed(ctx.rng) + [malformed_program(ctx.rng) for _ in range(300 * budget)]
     r = FL.oracle(ctx, PID, [O.check_C09], dict(junk=True), 60 * budget, replay=replay, extra_progs=extra)
     # stream-processor entry point: same grammar, line by line
     import io
@@ -93,3 +94,17 @@ def oracle(ctx, budget=1, replay=None, hints=None):
         r['failures'].append(dict(what='G2 J123456789012 does not return within 3 s (unbounded segment count)', signature='C09:unbounded-arc',
                                   case=dict(events=[['cmd', 'G28'], ['cmd', 'G2 J123456789012']])))
     return r
+
+
+def designed(rng):
+    """legal but unusual histories: unit / offset changes inside an episode that leave a logical coordinate unchanged while the tool moved
+    (or the other way round), and exclusion switched off in the middle of an episode with moves inside the same region afterwards"""
+    from fractions import Fraction as F
+    from props import C14
+    R = [('rect', 'a', F(10), F(10), F(20), F(20))]
+    out = []
+    for mid in (['G20', 'G1 Z1', 'G1 X2 Y2'], ['G20', 'G1 Z0.03937', 'G21', 'G1 X30 Y30'], ['G1 Z2', 'G92 Z3', 'G1 X30 Y30'], ['G91', 'G1 Z0', 'G90', 'G1 X30 Y30'],
+                ['G20', 'G1 Z1 F10', 'G1 X0.6 Y0.6', 'G21', 'G1 X40 Y40'], ['M206 Z1', 'G1 Z1', 'G1 X30 Y30']):
+        lines = ['G28', 'G1 Z1 F600', 'G1 X5 Y5', 'G1 X15 Y15 E1'] + mid + ['G1 X31 Y31 E2']
+        out.append(dict(g90e=False, enter=None, exit=None, ext=dict(genprog.DEFAULT_EXT), regions=R, events=[('cmd', l) for l in lines], style='none', alen='1'))
+    return out + C14.designed(rng, 6)
